@@ -186,7 +186,7 @@ func genNetPlan(r *Rand, tier string, focus string, faults bool) NetPlan {
 		op.Skew = skew
 		p.Ops = append(p.Ops, op)
 	}
-	if focus == "C10" {
+	if focus == "C10" || faults {
 		for i := range p.Ops {
 			o := &p.Ops[i]
 			if o.Node != "R" && (o.Op == "fetch" || o.Op == "pull" || o.Op == "merge" || o.Op == "push") && i > 3 && r.Chance(0.12) {
@@ -214,7 +214,7 @@ func genSpecs(r *Rand) []NetSpec {
 		sp = append(sp, NetSpec{Tags: true, Plus: r.Chance(0.2)})
 	}
 	if r.Chance(0.25) {
-		sp = append(sp, NetSpec{Branch: Pick(r, netBranches), ToTag: Pick(r, []string{"v1", "v2"}), Plus: r.Chance(0.2)})
+		sp = append(sp, NetSpec{Branch: Pick(r, netBranches), ToTag: Pick(r, []string{"t1", "t2"}), Plus: r.Chance(0.2)})
 	}
 	if len(sp) == 0 {
 		sp = append(sp, NetSpec{Branch: "main"})
@@ -599,7 +599,9 @@ func execNet(t *testing.T, raw json.RawMessage, res *Result, focus string) {
 					}
 					spec = fmt.Sprintf("refs/heads/%s:refs/remotes/origin/%s", sp.Branch, sp.Branch)
 					if sp.ToTag != "" {
-						if sp.ToTag != "v1" && sp.ToTag != "v2" {
+						// local-only tag names: remote tags (v1, v2) arriving through a tags refspec or by
+						// auto-following must not map onto the same destination as this refspec
+						if sp.ToTag != "t1" && sp.ToTag != "t2" {
 							res.Invalid("to_tag")
 							return
 						}
